@@ -382,6 +382,7 @@ typedef struct {
 	uint64_t      sess_t0;   // start of the current session and log counters then
 	long          inact0, disc0[16];
 	bool          wedged;    // a new client could not connect: stop using this victim
+	uint32_t      nblitz;    // sessions of this victim that were candidates for a blitz
 	// dialing victim: the hostile peer is a raw listener of this harness that
 	// the victim's socket dials (and dials again after every session)
 	bool          dial;
@@ -1429,6 +1430,19 @@ diag(victim *v, const char *what)
 	fprintf(stderr, "; victim pipes %d (own clients %d, kept %d) pre=%d rem=%d ctl add/rem %d/%d %d/%d\n", vf_pipe_count(v->s), live_ctl(v), v->lingering, atomic_load(&v->pre), atomic_load(&v->rem),
 	    atomic_load(&v->ctl[0].add), atomic_load(&v->ctl[0].rem), atomic_load(&v->ctl[1].add), atomic_load(&v->ctl[1].rem));
 	log_dump(v->sess_t0 > 3000000000ULL ? v->sess_t0 - 3000000000ULL : 0);
+	if (getenv("C11_DIAG_STACKS") != NULL) {
+		char cmd[256];
+		nng_stat *st = NULL;
+		if (nng_stats_get(&st) == 0) {
+			const nng_stat *ss = nng_stat_find_socket(st, v->s);
+			if (ss != NULL) nng_stats_dump(ss);
+			fflush(stdout);
+			nng_stats_free(st);
+		}
+		snprintf(cmd, sizeof(cmd), "gdb -q -batch -p %d -ex 'thread apply all bt 12' 2>&1 | grep -v '^\\[New\\|^Reading\\|^warning' | head -300 >&2", (int) getpid());
+		int rc = system(cmd);
+		(void) rc;
+	}
 }
 
 // from now on this client is a bystander that must stay connected
@@ -3486,9 +3500,74 @@ apply_trunc(victim *v, plan *pl, long off, vf_rng *r)
 }
 
 // ---------------------------------------------------------------- driver
+// A burst of connections that end before (or while) the victim writes its own
+// handshake: closed at once, reset, half-closed and then reset (a reset that
+// arrives in CLOSE_WAIT makes the victim's first write fail with EPIPE, which
+// the platform layer reports as NNG_ECLOSED - the code a listener uses for
+// "I was closed"), with 0..8 bytes of a handshake in front.  Nothing is read.
+// Only run in front of sessions that end with the fresh-client probe: a
+// listener that stopped accepting shows there.
+static const char *blitz_names[] = { "close", "rst", "fin-rst", "fin-wait-rst", "partial-hello-fin-rst", "hello-rst", "hello-fin-rst" };
+static void
+blitz(victim *v, uint32_t salt)
+{
+	vf_rng br;
+	vf_rng_seed(&br, vf_seed ^ 0xb1172ULL, ((uint64_t) v->tran << 40) ^ salt);
+	int n = 1 + (int) vf_below(&br, 6);
+	for (int i = 0; i < n; i++) {
+		int     kind = (int) vf_below(&br, 7);
+		uint8_t hello[8];
+		char    k[64];
+		int     fd = attacker_connect_stream(v);
+		if (fd < 0) return;
+		vf_sp_hello(hello, v->vp->peer);
+		switch (kind) {
+		case 0: close(fd); break;
+		case 1: fd_close_rst(fd); break;
+		case 2:
+			shutdown(fd, SHUT_WR);
+			fd_close_rst(fd);
+			break;
+		case 3:
+			shutdown(fd, SHUT_WR);
+			vf_usleep((int) vf_below(&br, 400));
+			fd_close_rst(fd);
+			break;
+		case 4: {
+			ssize_t w = write(fd, hello, vf_below(&br, 8));
+			(void) w;
+			shutdown(fd, SHUT_WR);
+			fd_close_rst(fd);
+			break;
+		}
+		case 5: {
+			ssize_t w = write(fd, hello, 8);
+			(void) w;
+			fd_close_rst(fd);
+			break;
+		}
+		default: {
+			ssize_t w = write(fd, hello, 8);
+			(void) w;
+			shutdown(fd, SHUT_WR);
+			if (vf_chance(&br, 1, 2)) vf_usleep((int) vf_below(&br, 400));
+			fd_close_rst(fd);
+			break;
+		}
+		}
+		vf_stat("blitz_connections", 1);
+		snprintf(k, sizeof(k), "blitz_%s", blitz_names[kind]);
+		vf_stat(k, 1);
+		vf_class("blitz/%s/%s/%s", vtn(v), v->vp->name, blitz_names[kind]);
+	}
+	vf_stat("blitz_bursts", 1);
+	settle(v, 3000);
+}
+
 static void
 run_session(victim *v, plan *pl, vf_rng *r, bool do_new, bool do_spin)
 {
+	if (do_new && !v->dial && v->tran != T_UDP && !v->wedged && ((v->nblitz++ & 1) == 0 || getenv("C11_BLITZ_ALL") != NULL) && getenv("C11_NO_BLITZ") == NULL) blitz(v, v->nblitz);
 	switch (v->tran) {
 	case T_WS: run_ws_session(v, pl, r, do_new, do_spin); break;
 	case T_UDP: run_udp_session(v, pl, r, do_new, do_spin); break;
